@@ -17,10 +17,9 @@ func compileArgv(targets []string, long bool, subcommand bool, abs bool) []strin
 	if subcommand {
 		argv = append(argv, "compile")
 	}
+	// the DSL path is always given relative ("in.dsl", as in the library-level
+	// worlds); only the output directories may be absolute
 	in := "in.dsl"
-	if abs {
-		in = "{SB}/in.dsl"
-	}
 	if long {
 		argv = append(argv, "--file", in)
 	} else {
